@@ -599,7 +599,8 @@ def effect(g, op, attrs=None):
         if not reverse:
             orders = [asc]
         else:
-            orders = [sorted(lst, key=lambda x: vals[x], reverse=True), list(reversed(asc))]
+            # "stably, reversed on request": a stable descending sort keeps ties in their previous order
+            orders = [sorted(lst, key=lambda x: vals[x], reverse=True)]
         for o in orders:
             g1 = g.copy()
             g1.clist(ref)[:] = o
